@@ -733,7 +733,23 @@ func constructorChain(c *core.Ctx, R string) {
 		case strings.HasPrefix(name, "Make") && len(name) > 4:
 			ps := u.CallsTo(".Prototype")
 			if len(ps) == 0 {
-				continue // not a prototype-style type (MakeSocket)
+				// required whenever the result type has a Prototype method (transports, servers); MakeSocket has none
+				needs := false
+				if u.Type.Results != nil && len(u.Type.Results.List) == 1 {
+					if t := info.TypeOf(u.Type.Results.List[0].Type); t != nil {
+						ms := types.NewMethodSet(t)
+						for i := 0; i < ms.Len(); i++ {
+							if ms.At(i).Obj().Name() == "Prototype" {
+								needs = true
+							}
+						}
+					}
+				}
+				if needs {
+					n++
+					c.Violate(R, keyf("%s.%s/Prototype(self)-then-return", pk, name), u.Pos(), "the made value never registers itself as prototype: Proto() dispatches to the embedded base instead of the outermost override")
+				}
+				continue
 			}
 			n++
 			ok := len(ps) == 1 && ps[0].Recv != nil && len(ps[0].Expr.Args) == 1 && sameObj(info, ps[0].Recv, ps[0].Expr.Args[0])
